@@ -678,15 +678,29 @@ class FrozenScaling:
         return self.sf
 
 
-def gen_aggregation(rng, tier):
+def gen_aggregation(rng, tier, damped_history=False):
+    """damped_history (C04 only): a real AggScaling with damping and one earlier response at other data, so that the factor in
+    use is a mixture that must stay what response() left (the sensitivity then is not the derivative of the scaled response, which
+    is why C01 keeps to frozen factors; linearity, accumulation and repeatability hold for it all the same)."""
     import pymoto as pym
     kind = str(rng.choice(["PNorm", "KSFunction", "SoftMinMax"]))
     n = int(rng.integers(1, 12))
     par = float(rng.uniform(0.5, 12) * rng.choice([-1, 1]))
-    x = rng.uniform(0.3, 3.0, n)
+    # round 10: the p-norm is the norm of |x| and is differentiable at every non-zero entry: entries of either sign
+    mixed = kind == "PNorm" and rng.random() < 0.4
+
+    def draw():
+        z = rng.uniform(0.3, 3.0, n)
+        return z * rng.choice([-1.0, 1.0], n) if mixed else z
+    x = draw()
     sf = None
     if rng.random() < 0.4:
         sf = float(rng.uniform(0.5, 2))
+    damp = None
+    if damped_history and rng.random() < 0.4:
+        sf = None
+        damp = float(rng.choice([0.0, 0.3, 0.5, 0.9]))
+        xprev = np.abs(draw()) * float(rng.uniform(0.5, 2))
     act = None
     if rng.random() < 0.5 and n >= 3:
         for _ in range(50):
@@ -698,7 +712,7 @@ def gen_aggregation(rng, tier):
             if margin > 1e-2 and np.sum(np.ones(n, bool)[sel]) >= 1 and np.min(np.diff(np.sort(x))) > 1e-3:
                 act = o
                 break
-            x = rng.uniform(0.3, 3.0, n)
+            x = draw()
     argname = {"PNorm": "p", "KSFunction": "rho", "SoftMinMax": "alpha"}[kind]
 
     def build():
@@ -707,11 +721,18 @@ def gen_aggregation(rng, tier):
             kw["scaling"] = FrozenScaling(sf)
         if act is not None:
             kw["active_set"] = pym.AggActiveSet(**act)
+        if damp is not None:
+            kw["scaling"] = pym.AggScaling("max" if par > 0 else "min", damping=damp)
+            m = getattr(pym, kind)(_S("x", xprev), pym.Signal("y"), **kw)
+            m.response()                                  # the history: a factor from other data
+            m.sig_in[0].state = copy.deepcopy(x)
+            return m
         return getattr(pym, kind)(_S("x", x), pym.Signal("y"), **kw)
 
     def fwd(z, sel):
         z = z[sel]
         if kind == "PNorm":
+            z = z * np.sign(np.real(z))                   # |x| along the real axis (complex step keeps the branch)
             return np.sum(z ** par) ** (1 / par)
         if kind == "KSFunction":
             m = np.max(np.real(par * z))
@@ -725,7 +746,8 @@ def gen_aggregation(rng, tier):
         h = 1e-30
         d = np.imag(fwd(x0_[0] + 1j * h * v[0], sel)) / h      # complex-step derivative of my own forward formula
         return [np.asarray((sf if sf is not None else 1.0) * d)]
-    return Cfg(kind, f"{kind}/sign{np.sign(par)}/frozen{sf is not None}/active{act is not None}", build, [x], tangent=tangent)
+    return Cfg(kind, f"{kind}/sign{np.sign(par)}/frozen{sf is not None}/active{act is not None}" + ("/mixed-sign" if mixed else "")
+               + ("" if damp is None else f"/damped{damp}-after-a-response"), build, [x], tangent=tangent)
 
 
 def gen_scaling(rng, tier):
